@@ -282,6 +282,31 @@ impl<E: ElemT> TableDrv<E> {
                 let o = self.tab(t).insert_unique(h, el, hasher_of::<E>);
                 ev.r = vec![o.get().id() as i64];
             }
+            "iter_default" => {
+                use hashbrown::hash_table as ht;
+                let mut good = 0i64;
+                let mut total = 0i64;
+                macro_rules! chk {
+                    ($it:expr, $exact:expr) => {{
+                        let mut it = $it;
+                        total += 1;
+                        let sh = if $exact { it.size_hint() == (0, Some(0)) } else { it.size_hint().0 == 0 };
+                        let n1 = it.next().is_none();
+                        let n2 = it.next().is_none();
+                        let f = it.fold(0usize, |a, _| a + 1) == 0;
+                        if sh && n1 && n2 && f {
+                            good += 1;
+                        }
+                    }};
+                }
+                chk!(ht::Iter::<E>::default(), true);
+                chk!(ht::Iter::<E>::default().clone(), true);
+                chk!(ht::IterMut::<E>::default(), true);
+                chk!(ht::IterHash::<E>::default(), false);
+                chk!(ht::IterHashMut::<E>::default(), false);
+                chk!(ht::IntoIter::<E, CheckingAlloc>::default(), true);
+                ev.r = vec![good, total];
+            }
             "t_find" => {
                 ev.r = match self.tab(t).find(h, |e| env::eq_hook(e.class() == k && e.h() == h)) {
                     Some(e) => vec![e.id() as i64, e.v() as i64],
